@@ -85,7 +85,14 @@ func (c *Ctx) Fail(kind, relation string, cs interface{}, detail string, knownID
 		c.R.Known = append(c.R.Known, f)
 		return
 	}
-	if len(c.R.Failures) < c.maxFail {
+	// the cap is per kind: correspondence failures must not crowd out a concrete failing input found later
+	n := 0
+	for _, g := range c.R.Failures {
+		if (g.Kind == "oracle") == (kind == "oracle") {
+			n++
+		}
+	}
+	if n < c.maxFail {
 		c.R.Failures = append(c.R.Failures, f)
 	}
 }
